@@ -498,6 +498,14 @@ func bxvCheck(c bxvCase, withRef bool, fails *[]bxvFailure) {
 	if perr != nil {
 		return
 	}
+	// the reference evaluates the tree of the independent reference parser, not
+	// the tree the code under test built: a parser action that builds the wrong
+	// node (binding mode, operator, literal) shows up here too
+	if rt, ok := bxvRefParse(c.Expr); ok {
+		if re, isE := rt.(grammar.Expression); isE {
+			ast = re
+		}
+	}
 	env := c.env
 	if env.tag == "" {
 		env.tag = "bexpr"
@@ -994,7 +1002,8 @@ func bxvConcurrent(fails *[]bxvFailure) int {
 // history independence / purity
 func bxvHistory(fails *[]bxvFailure) int {
 	n := 0
-	exprs := []string{"S matches `a.*`", "X == 1", "any L as x { x == 2 }", "M.zz == 1", "Zz == 1", "M.zz != 1", "M.zz is empty", "M.zz.y != 1", "1 in M.zz", "all M.zz as x { x == 1 }", "X == 1.0", "X in L"}
+	exprs := []string{`"/M/a~1b" is empty`, `"/M/a~1b" matches "x"`, `x in "/M/a~1b"`, `any "/M/a~1b" as v { v == 1 }`, `"/M/t~0d" is not empty`, `M["a/b"] is empty`,
+		"S matches `a.*`", "X == 1", "any L as x { x == 2 }", "M.zz == 1", "Zz == 1", "M.zz != 1", "M.zz is empty", "M.zz.y != 1", "1 in M.zz", "all M.zz as x { x == 1 }", "X == 1.0", "X in L"}
 	// same Go type, different shape behind the interfaces: what one datum taught the evaluator must not leak into the next
 	data := []interface{}{
 		map[string]interface{}{"S": "abc", "X": 1, "L": []int{1, 2}, "M": map[string]int{}},
@@ -1004,6 +1013,9 @@ func bxvHistory(fails *[]bxvFailure) int {
 		map[string]interface{}{"M": map[string]interface{}{"zz": map[string]interface{}{}}, "X": 1.0, "L": []interface{}{1.0, "x"}},
 		map[string]interface{}{"M": []int{1}, "X": int8(1), "L": []int8{1}},
 		map[string]interface{}{"M": map[string]interface{}{"zz": 1}, "X": uint(1), "L": "1"},
+		map[string]interface{}{"M": map[string]interface{}{"a/b": 5, "t~d": 5}},
+		map[string]interface{}{"M": map[string]interface{}{"a/b": "x", "t~d": []int{1}}},
+		map[string]interface{}{"M": map[string]interface{}{"a/b": []int{1}, "t~d": ""}},
 		nil,
 	}
 	// a producer blocked on an unbuffered channel reachable from the datum must
@@ -1174,6 +1186,40 @@ func bxvHiddenCases(fails *[]bxvFailure) int {
 		n++
 		if x, y := run([]bxvSecret{a, a2}), run([]bxvSecret{b, b2}); x != y {
 			*fails = append(*fails, bxvFailure{Kind: "filter", Expr: e, Datum: "two slices differing only in hidden fields", Got: x, Want: y})
+		}
+	}
+	// elements whose visible fields are all zero: whether they are kept must not depend on hidden content
+	type zeroVis struct {
+		V      string
+		L      []string
+		hidden string
+		Skip   int `bexpr:"-" json:"-"`
+	}
+	for _, e := range []string{"V is empty", "V != web", `V == ""`, "L is empty", "blue not in L", "V is not empty"} {
+		f, err := CreateFilter(e)
+		if err != nil || f == nil {
+			continue
+		}
+		count := func(x interface{}) string {
+			defer func() { recover() }()
+			r, err := f.Execute(x)
+			if err != nil {
+				return "error"
+			}
+			return fmt.Sprint(reflect.ValueOf(r).Len())
+		}
+		n++
+		plainS, hidS := []zeroVis{{}, {}, {V: "web"}}, []zeroVis{{hidden: "x"}, {Skip: 1}, {V: "web", hidden: "y"}}
+		if x, y := count(plainS), count(hidS); x != y {
+			*fails = append(*fails, bxvFailure{Kind: "filter", Expr: e, Datum: "two slices of structs with all-zero visible fields, differing only in hidden fields", Got: "kept " + x, Want: "kept " + y})
+		}
+		plainA, hidA := [2]zeroVis{}, [2]zeroVis{{hidden: "x"}, {Skip: 1}}
+		if x, y := count(plainA), count(hidA); x != y {
+			*fails = append(*fails, bxvFailure{Kind: "filter", Expr: e, Datum: "two arrays of structs with all-zero visible fields, differing only in hidden fields", Got: "kept " + x, Want: "kept " + y})
+		}
+		plainM, hidM := map[string]zeroVis{"a": {}, "b": {}}, map[string]zeroVis{"a": {hidden: "x"}, "b": {Skip: 1}}
+		if x, y := count(plainM), count(hidM); x != y {
+			*fails = append(*fails, bxvFailure{Kind: "filter", Expr: e, Datum: "two maps of structs with all-zero visible fields, differing only in hidden fields", Got: "kept " + x, Want: "kept " + y})
 		}
 	}
 	return n
@@ -1390,7 +1436,7 @@ func bxvRefRender(e grammar.Expression, ind string, k int) string {
 func bxvDumpCases(fails *[]bxvFailure) int {
 	exprs := []string{"a == 1", "a.b.c != x", `"/a/b" in c`, "x not in y", "a is empty", "a is not empty", "a matches `x.*`", "a not matches `y`", "not a == 1",
 		"a == 1 and b == 2", "a == 1 or b == 2 and not c == 3", "any a.b as x { x == 1 }", "all a as i, v { v == 1 and i != 2 }", "any a as _, v { v is empty }", "all a as i, _ { i == 0 }",
-		"a == `say \"hi\"`", "a == `C:\\dir`", "a == `line1\nline2`", "a == \"tab\\there\"", "a == `}\nOr {`", "a == \"\"", "a contains `é`", `"/x/~0y" == 1`, `"/a/../b" == 1`, `"/a/./b" == 1`, `"/.." == 1`, `any "/../x" as k, v { v == 1 }`, `a["."].b == 1`, `a[".."] == 1`, "a.b == `/a/../b`",
+		"a == `say \"hi\"`", "a == `C:\\dir`", "a == `line1\nline2`", "a == \"tab\\there\"", "a == `}\nOr {`", "a == \"\"", "a contains `é`", `"/x/~0y" == 1`, `"/a/../b" == 1`, `"/a/./b" == 1`, `"/.." == 1`, `any "/../x" as k, v { v == 1 }`, `a["."].b == 1`, `a[".."] == 1`, `any quota["100%"] as q { q == 1 }`, `all labels["cpu%d"] as k, v { v == 1 }`, `a["%s"] == "%v"`, `a["%!"] matches "%"`, "x%y == 1", "a.b == `/a/../b`",
 		"any a as x { any x.b as y { y == `q\"` or not y matches `z` } }"}
 	n := 0
 	for _, in := range exprs {
